@@ -28,6 +28,10 @@ if REPO not in sys.path:
     sys.path.insert(0, REPO)
 
 
+import warnings as _warnings
+_warnings.showwarning = lambda *a, **k: None   # library warnings are not diagnostics of the check
+
+
 def seed():
     try:
         return int(os.environ.get('VERIF_SEED', '0'))
